@@ -168,4 +168,42 @@ def SetUp.peer? : SetUp → Option Nat
   | .completes p => some p
   | .stalls => none
 
+/-! ### the service manager's dispatcher (`network/dispatch.go:100-137`, `service.go:318-330, 400-408`)
+`RoutineDispatcher.Dispatch` — called synchronously in the receive loop of the connection the
+message came in on — looks the processor up and starts it in a routine of its own; it does not
+wait for any other processor.  `cap = some k`: the variant with at most `k` processors at a time,
+the slot being taken in `Dispatch` itself. -/
+
+structure Rd where
+  /-- processors started and not yet returned -/
+  running : List Nat := []
+  /-- ghost: every message handed to its processor, in order -/
+  started : List Nat := []
+  deriving DecidableEq, Repr
+
+inductive RdAct where
+  /-- a receive loop calls `Dispatch` with message `m` -/
+  | dispatch (m : Nat)
+  /-- the processor of message `m` returns (the environment decides when, if ever) -/
+  | finish (m : Nat)
+  deriving DecidableEq, Repr
+
+/-- `none`: the calling receive loop is blocked -/
+def rdStep (cap : Option Nat) (s : Rd) : RdAct → Option Rd
+  | .dispatch m =>
+    match cap with
+    | some k => if s.running.length < k then some { running := s.running ++ [m], started := s.started ++ [m] } else none
+    | none => some { running := s.running ++ [m], started := s.started ++ [m] }
+  | .finish m => some { s with running := s.running.filter (· != m) }
+
+def rdRun (cap : Option Nat) (s : Rd) : List RdAct → Rd
+  | [] => s
+  | a :: as => match rdStep cap s a with
+    | some s' => rdRun cap s' as
+    | none => rdRun cap s as
+
+def RdAct.msg? : RdAct → Option Nat
+  | .dispatch m => some m
+  | .finish _ => none
+
 end C09
